@@ -363,6 +363,8 @@ def main(argv=None):
             digests.add(r['digest'])
             all_digests[job['index']] = [r['digest'], r.get('abstract'), r.get('vtime'), len(r.get('violations', []))]
         if r.get('abstract'):
+            if r['abstract'] not in abstracts:
+                stats['units'] = stats.get('units', 0) + int(r.get('distinct_units', 0))
             abstracts.add(r['abstract'])
         for k, v in (r.get('counters') or {}).items():
             counters[k] = counters.get(k, 0) + v
@@ -432,7 +434,8 @@ def main(argv=None):
                   'verif_seed': base_seed, 'case': case, 'schedule': schedule, 'opts': opts,
                   'digest': fr.get('digest'), 'violation': (fv[0] if fv else v),
                   'events': fr.get('events', []), 'original_case': job['case']}
-            path = os.path.join(VERIF, 'replays', '%s-%s-%d.json' % (prop, args.check, job['seed']))
+            path = os.path.join(VERIF, 'replays', '%s-%s-%d-%s.json' % (
+                prop, args.check, job['seed'], hashlib.sha1(str(sig).encode()).hexdigest()[:6]))
             write_json(path, rp)
             replays.append(path)
             log('VIOLATION property=%s replay=%s' % (prop, path))
@@ -448,7 +451,7 @@ def main(argv=None):
         if not args.no_evidence:
             cov = {
                 'evaluations': stats['runs'],
-                'distinct_nontrivial': len(abstracts) if abstracts else len(digests),
+                'distinct_nontrivial': stats.get('units') or (len(abstracts) if abstracts else len(digests)),
                 'rule': spec.RULE,
                 'samples': samples or [{'note': 'no run completed'}],
                 'seeds': {'verif_seed': base_seed, 'first_index': args.first, 'derivation': 'sha256(VERIF_SEED|check|i)[:7]'},
